@@ -52,8 +52,8 @@ func init() {
 				n = 90
 			}
 			return fw.Meta{N: n, Level: "fault_enumeration", Chunk: 1, CaseTimeoutS: 900, MinNT: 3, Workers: 3,
-				Rule: "one case = one traced session (strace -f) of 2..3 open/operate/close rounds, 40..150 Put/Delete each on 8 keys, memstore {100,150,1024} bytes, write buffers {32,64,256,4MiB}, compactor ticking at 1..5 ms with thresholds 0..2, occasional forced rotations; INV/ACK markers of every operation are system calls in the same log. The log is replayed into an in-memory file system (close at entry, everything else at completion; the final replayed image must equal the real directory); after EVERY mutating call (create, write, truncate, rename, unlink, mkdir, rmdir) of any thread the state is one crash image; runs of unlinks in one directory are additionally permuted (other directory listing orders). Every distinct (image, acknowledged state) is materialised and opened by a fresh process: Open must succeed and every key must read model(acked) or model(acked + the one operation in flight). evaluations = distinct images recovered; non-trivial = session with >=50 distinct images; the evidence lists images per phase (open/close/flush/compaction/operations)",
-				MinObs: map[string]int64{"sessions_traced": 3, "distinct_images_recovered": 1500, "images_in_phase_flush": 100, "images_in_phase_compaction": 30, "images_in_phase_open": 20, "images_in_phase_close": 20},
+				Rule:        "one case = one traced session (strace -f) of 2..3 open/operate/close rounds, 40..150 Put/Delete each on 8 keys, memstore {100,150,1024} bytes, write buffers {32,64,256,4MiB}, compactor ticking at 1..5 ms with thresholds 0..2, occasional forced rotations; INV/ACK markers of every operation are system calls in the same log. The log is replayed into an in-memory file system (close at entry, everything else at completion; the final replayed image must equal the real directory); after EVERY mutating call (create, write, truncate, rename, unlink, mkdir, rmdir) of any thread the state is one crash image; runs of unlinks in one directory are additionally permuted (other directory listing orders). Every distinct (image, acknowledged state) is materialised and opened by a fresh process: Open must succeed and every key must read model(acked) or model(acked + the one operation in flight). evaluations = distinct images recovered; non-trivial = session with >=50 distinct images; the evidence lists images per phase (open/close/flush/compaction/operations)",
+				MinObs:      map[string]int64{"sessions_traced": 3, "distinct_images_recovered": 1500, "images_in_phase_flush": 100, "images_in_phase_compaction": 30, "images_in_phase_open": 20, "images_in_phase_close": 20},
 				Assumptions: []string{"kill -9 model of the statement: every completed system call is retained, a single write is not torn, no power loss", "schedules are those that occurred in the traced sessions; other directory listing orders are emulated for unlink runs only"},
 			}
 		},
@@ -62,6 +62,34 @@ func init() {
 			c.HashAdd("sync", seed)
 			sum := e2RunSession(c, e2Config{mode: "sync", seed: seed, nkeys: 8})
 			e2Report(c, sum, fmt.Sprintf("sync-WAL session seed=%d", seed))
+		},
+	})
+}
+
+func init() {
+	fw.Register(&fw.Prop{
+		ID: "C13",
+		Meta: func(tier string) fw.Meta {
+			n := 6
+			if tier == "thorough" {
+				n = 60
+			}
+			return fw.Meta{N: n, Level: "fault_enumeration", Chunk: 1, CaseTimeoutS: 1200, MinNT: 3, Workers: 3,
+				Rule:        "one case = one traced session with EnableAsyncWAL: cases 0 mod 3 log 90..130 incompressible values of 64..256 KiB (memstore 16 MiB) so that the 4 MiB WAL buffer wraps several times and buffer flushes cut records; the other cases are small-memstore sessions with many rotations (as in C02). Crash image after every mutating system call; a fresh process must Open it and the content must equal the reference map after SOME prefix p of the invoked operation sequence with L <= p, where L = number of operations acknowledged before the creation of the newest WAL file that precedes the image (= before the last memstore rotation). evaluations = distinct images recovered; non-trivial = session with >=50 images",
+				MinObs:      map[string]int64{"sessions_traced": 3, "distinct_images_recovered": 1000, "big_sessions": 1, "images_with_cut_wal_record": 2},
+				Assumptions: []string{"kill -9 model as in C02", "an operation that was invoked but not acknowledged may be the last element of the prefix"},
+			}
+		},
+		Run: func(c *fw.Case) {
+			seed := fw.CaseSeed("C13-session", c.Seed, c.Idx)
+			big := c.Idx%3 == 0
+			c.HashAdd("async", seed, big)
+			if big {
+				c.Obs("big_sessions", 1)
+			}
+			sum := e2RunSession(c, e2Config{mode: "async", seed: seed, nkeys: 8, big: big})
+			c.Obs("images_with_cut_wal_record", int64(sum.cutWal))
+			e2Report(c, sum, fmt.Sprintf("async-WAL session seed=%d big=%v", seed, big))
 		},
 	})
 }
